@@ -60,7 +60,7 @@ class ScenarioResult:
         self.extra = {}
 
 
-def explore(I, name, run_path, max_paths=2000, time_budget=None, seed=0):
+def explore(I, name, run_path, max_paths=2000, time_budget=None, seed=0, part=None):
     """Enumerate the paths of one scenario by re-execution.  run_path(I, res) runs one path and
     appends violations / samples to res."""
     res = ScenarioResult(name)
@@ -73,8 +73,9 @@ def explore(I, name, run_path, max_paths=2000, time_budget=None, seed=0):
             break
         prefix = work.pop()
         I.begin_path(prefix)
+        scratch = ScenarioResult(name) if part is not None else res
         try:
-            run_path(I, res)
+            run_path(I, scratch)
         except PathInfeasible:
             continue
         except Unsupported as e:
@@ -83,12 +84,30 @@ def explore(I, name, run_path, max_paths=2000, time_budget=None, seed=0):
         except RecursionError:
             res.fault = "RecursionError | decisions=%s" % (I.path.taken,)
             break
-        res.paths += 1
+        if part is not None:
+            if _owner(I.path.taken, part[1]) == part[0]:
+                res.paths += 1
+                res.violations += scratch.violations
+                res.samples += scratch.samples[: max(0, 3 - len(res.samples))]
+                res.witnesses += scratch.witnesses
+                res.obligations += scratch.obligations
+        else:
+            res.paths += 1
         alts = I.path.alternatives()
+        if part is not None:
+            alts = [a for a in alts if len(a) < PART_DEPTH or _owner(a, part[1]) == part[0]]
         if seed:
             rnd.shuffle(alts)
         work.extend(alts)
     return res
+
+
+PART_DEPTH = 3
+
+
+def _owner(seq, n):
+    s = list(seq[:PART_DEPTH]) + [0] * (PART_DEPTH - len(seq))
+    return (s[0] * 31 + s[1] * 7 + s[2]) % n
 
 
 _WORKER = {}
@@ -172,6 +191,9 @@ class Check:
                 new_roles.append((role, vs))
         # replay files for new violations
         os.makedirs(os.path.join(VERIF, "replays"), exist_ok=True)
+        for f in os.listdir(os.path.join(VERIF, "replays")):
+            if f.startswith("%s-%s-" % (self.prop, self.tier)):
+                os.unlink(os.path.join(VERIF, "replays", f))
         lines = []
         for role, vs, k in known_roles:
             lines.append("KNOWN-FINDING: property=%s %s (%s; %d instance(s))" % (self.prop, role, k.get("what", vs[0].desc), len(vs)))
@@ -228,7 +250,10 @@ class Check:
         print("%s tier=%s scenarios=%d paths=%d stmts=%d solver=%d/%.1fs wall=%.1fs new=%d known=%d faults=%d inconclusive=%d vacuous=%d" % (
             self.prop, self.tier, len(self.results), stats["paths"], stats["stmts"], stats["solver_calls"], stats["solver_time"],
             time.time() - self.t0, len(new_roles), len(known_roles), len(faults), len(inconcl), len(vacuous)))
-        for role, vs in diverged:
+        for i, (role, vs) in enumerate(diverged):
+            path = os.path.join(VERIF, "replays", "%s-%s-diverged-%d.json" % (self.prop, self.tier, i))
+            with open(path, "w") as f:
+                json.dump(dict(property=self.prop, role=role, instances=[v.to_dict() for v in vs[:3]]), f, indent=1, default=str)
             print("MODEL-DIVERGENCE property=%s %s: counterexample did not reproduce on the real engine: %s" % (self.prop, role, json.dumps(vs[0].replay, default=str)[:600]))
         if diverged:
             faults = faults + [("replay", "model divergence on %d role(s)" % len(diverged))]
